@@ -140,7 +140,7 @@ fn same(a: &Value, b: &Value, bits: u8) -> Result<(), (String, String)> {
                 let fb = floats_of(b);
                 for (i, (p, q)) in fa.iter().zip(&fb).enumerate() {
                     if p.to_bits() != q.to_bits() && !(bits == 1 && p.is_nan() && q.is_nan()) {
-                        let k = if *p == 0.0 && *q == 0.0 { "negzero" } else if p.is_nan() && q.is_nan() { "nan-bits" } else { "bits" };
+                        let k = if *p == 0.0 && *q == 0.0 { if matches!(a, Value::Complex(_)) { "negzero-complex" } else { "negzero" } } else if p.is_nan() && q.is_nan() { "nan-bits" } else { "bits" };
                         return Err((k.to_string(), format!("element {i}: bits {:#018x} ({p:?}) vs {:#018x} ({q:?})", p.to_bits(), q.to_bits())));
                     }
                 }
@@ -429,8 +429,32 @@ fn val_class(v: &Value) -> String {
     s
 }
 
+/// inputs of the defects repaired in round 3 (b303665 / 61cd68e negative zero, 6e1b98d empty complex
+/// list, f005f5d escape followed by a grapheme-extending character): replayed first by binary and repr
+fn regress_values() -> Vec<Value> {
+    let w = f64::from_bits(0x7ff8_0000_0000_0003);
+    let esc: Vec<char> = vec!['\u{383}', '\u{1f3fb}'];
+    let esc2: Vec<char> = vec!['\u{7f}', '\u{301}', 'a', '\u{ffff}', '\u{200d}'];
+    vec![
+        num(&[], &[-0.0]),
+        num(&[2], &[-0.0, 0.0]),
+        num(&[2], &[-0.0, 5.0]),
+        num(&[3], &[-0.0, -7.0, 300.0]),
+        num(&[2], &[-0.0, 0.5]),
+        cplx(&[2], &[Complex::new(-0.0, 1.0), Complex::new(0.0, -0.0)]),
+        cplx(&[0], &[]),
+        cplx(&[0, 2], &[]),
+        boxes(&[2], vec![cplx(&[0], &[]), num(&[1], &[-0.0])]),
+        chars(&[2], &esc),
+        chars(&[5], &esc2),
+        boxes(&[2], vec![chars(&[2], &esc), chars(&[5], &esc2)]),
+        num(&[], &[w]),
+    ]
+}
+
 fn search_binary(r: &mut Rng, n: usize, o: &mut Out) {
-    let mut vals = op_values();
+    let mut vals = regress_values();
+    vals.extend(op_values());
     vals.extend(boundary_values());
     for d in [1usize, 5, 30, 31, 32, 33, 34, 40] {
         vals.push(nest(num(&[2], &[1.0, 2.5]), d));
@@ -467,7 +491,8 @@ fn search_binary(r: &mut Rng, n: usize, o: &mut Out) {
 }
 
 fn search_repr(r: &mut Rng, n: usize, o: &mut Out) {
-    let mut vals = op_values();
+    let mut vals = regress_values();
+    vals.extend(op_values());
     for _ in 0..n {
         vals.push(gen_val(r, 0, 4));
     }
@@ -551,9 +576,10 @@ fn search_numbers(r: &mut Rng, n: usize, o: &mut Out) {
             }
         }
     }
-    // arrays: °⋕ boxes each string, ⋕ un-boxes
-    for _ in 0..n / 10 {
-        let sh = gen_shape_r(r, 2, 3);
+    // arrays: °⋕ boxes each string, ⋕ un-boxes (first the shapes of the repaired defect 0d74fe9)
+    let fixed_shapes: [&[usize]; 5] = [&[0, 3], &[0, 1], &[2, 0], &[0], &[0, 2, 2]];
+    for i in 0..n / 10 + fixed_shapes.len() {
+        let sh = if i < fixed_shapes.len() { fixed_shapes[i].to_vec() } else { gen_shape_r(r, 2, 3) };
         let d: Vec<f64> = (0..shape_len(&sh)).map(|_| gen_finite_f64(r)).collect();
         let v = num(&sh, &d);
         o.count("parse-array");
@@ -829,7 +855,7 @@ fn search_compress_bytes(r: &mut Rng, n: usize, o: &mut Out) {
             Err(e) => o.violation("bytes", &format!("error-{class}"), &format!("{f}{side} {}", describe(&v)), &e, &prog),
             Ok(back) => {
                 if let Err((k, e)) = same(&v, &back, if int { 0 } else { 2 }) {
-                    let class = if k == "nan-bits" || k == "negzero" || k == "bits" { format!("{class}-{k}") } else { class.clone() };
+                    let class = if k == "nan-bits" || k.starts_with("negzero") || k == "bits" { format!("{class}-{k}") } else { class.clone() };
                     o.violation("bytes", &class, &format!("{f}{side} {}", describe(&v)), &format!("{e}; got {}", describe(&back)), &prog);
                 }
             }
@@ -1100,7 +1126,8 @@ fn tie(r: &mut Rng, n: usize) {
         }
     }
     // ---- binary: encoder bytes for generated values, decoder on produced / malformed bytes
-    let mut vals = op_values();
+    let mut vals = regress_values();
+    vals.extend(op_values());
     vals.extend(boundary_values());
     for d in [1usize, 3, 31, 32, 33] {
         vals.push(nest(num(&[2], &[1.0, 2.5]), d));
